@@ -205,7 +205,7 @@ def _locked_term_files():
     import os
     try:
         lock = json.load(open(os.path.join(os.path.dirname(os.path.dirname(os.path.abspath(__file__))), "obligations.lock.json"))).get("C01", {})
-        return {k.split("/", 1)[1].split("::")[0] for k in lock if "/decreases#" in k and "::" in k and "/" in k}
+        return {k.split("/", 1)[1].split("::")[0] for k in lock if "/decreases#while-" in k and "::" in k}
     except Exception:  # noqa
         return set()
 
